@@ -68,7 +68,8 @@ impl NodeWorker {
     pub fn new() -> Self {
         let (child, stdin, rx) = spawn();
         let mut w = NodeWorker { child, stdin, rx, next_id: 1, restarts: 0 };
-        let pong = w.call(serde_json::json!({"kind": "ping"}));
+        // loading and transforming the runtime sources can take long on a busy machine
+        let pong = w.call_with_timeout(serde_json::json!({"kind": "ping"}), Duration::from_secs(300));
         match pong {
             Ok(v) if v["status"] == "ok" => {}
             other => harness_error(&format!("node executor did not start (loader failure?): {:?}", other)),
@@ -87,7 +88,11 @@ impl NodeWorker {
     }
 
     /// Err = the executor hung or died on this job (the job is then a discarded run).
-    pub fn call(&mut self, mut job: Value) -> Result<Value, String> {
+    pub fn call(&mut self, job: Value) -> Result<Value, String> {
+        self.call_with_timeout(job, Duration::from_secs(10))
+    }
+
+    pub fn call_with_timeout(&mut self, mut job: Value, timeout: Duration) -> Result<Value, String> {
         let id = self.next_id;
         self.next_id += 1;
         job["id"] = serde_json::json!(id);
@@ -97,7 +102,7 @@ impl NodeWorker {
             return Err("executor pipe closed".into());
         }
         loop {
-            match self.rx.recv_timeout(Duration::from_secs(10)) {
+            match self.rx.recv_timeout(timeout) {
                 Ok(l) => {
                     let v: Value = match serde_json::from_str(&l) {
                         Ok(v) => v,
